@@ -130,10 +130,10 @@ func c10Server(p c10P, b Bounds) *Scenario {
 					}
 				})
 				if p.Notify {
-					j.Go("notify", func() { srv.Notify(context.Background(), "pushed", nil) })
+					j.Go("notify", func() { srv.Notify(context.Background(), "pushed\x01\a\x7f\U000e0001", nil) })
 				}
 				if p.Callback {
-					j.Go("callback", func() { srv.Callback(context.Background(), "cb", nil) })
+					j.Go("callback", func() { srv.Callback(context.Background(), "cb\x01\v\x7f", nil) })
 				}
 				if p.Stop {
 					j.Go("stop", func() { srv.Stop() })
